@@ -156,7 +156,18 @@ def run(chk):
     ff = FuncFacts(repo, folder, f, "C04.R5")
     rets = [n for n in ast.walk(f.node) if isinstance(n, ast.Return) and n.value is not None]
     typed = [r for r in rets if "STRUCT_TYPES" in src(r.value)]
-    if not typed:
+    cached = []
+    for r in rets:
+        for a in [x for x in ast.walk(r.value) if isinstance(x, ast.Attribute) and isinstance(x.value, ast.Name) and x.value.id == "self" and x.attr not in ("data_type", "STRUCT_TYPES")]:
+            writers = [m for m in odv.methods.values() for n in ast.walk(m.node) if isinstance(n, (ast.Assign, ast.AugAssign, ast.AnnAssign))
+                       for t in (n.targets if isinstance(n, ast.Assign) else [n.target]) if dotted(t) == f"self.{a.attr}"]
+            if writers:
+                cached.append((r, a.attr))
+    for r, attr in cached:
+        chk.bad("R5", f"{OD}:ODVariable.__len__ | computed from the current data type", f.loc(r),
+                f"the bit length is returned from the stored attribute self.{attr}: data_type is a plain mutable attribute, after it changes the length is stale "
+                f"(length checks, PDO mapping and SDO truncation use the old width)")
+    if not typed and not cached:
         chk.unk("R5", f"{OD}:ODVariable.__len__", f.loc(), "no return derived from STRUCT_TYPES")
     for r in typed:
         want = {"8 * self.STRUCT_TYPES[self.data_type].size", "self.STRUCT_TYPES[self.data_type].size * 8"}
